@@ -83,6 +83,23 @@ pub fn observe_mode(regs: &[Reg], map: MapMode, env: &PlanEnv, alt_pool: bool, r
         dispatcher.dispatch_thread_local(&world);
     }));
     let log = rec.take();
+    // one more dispatch, through the PARALLEL entry point: every top-level system (staged or thread-local) runs exactly once
+    // more, however wide the stages are (C04)
+    let mut pardelta: Vec<u32> = Vec::new();
+    {
+        let tops: Vec<u32> = regs.iter().filter_map(|r| match r { Reg::Sys { tag, .. } | Reg::Tl { tag, .. } => Some(*tag), _ => None }).collect();
+        let before: Vec<u64> = tops.iter().map(|t| out.handles.runs.get(t).map(|r| r.load(Ordering::SeqCst)).unwrap_or(0)).collect();
+        rec.identify.store(false, Ordering::SeqCst);
+        let r = catch_unwind(AssertUnwindSafe(|| dispatcher.dispatch(&world)));
+        rec.identify.store(true, Ordering::SeqCst);
+        let _ = rec.take();
+        for (i, t) in tops.iter().enumerate() {
+            let now = out.handles.runs.get(t).map(|r| r.load(Ordering::SeqCst)).unwrap_or(0);
+            // (a system whose registration was rejected in recovery mode never ran: it is not part of the dispatcher)
+            if before[i] >= 1 && (now != before[i] + 1 || r.is_err()) { pardelta.push(*t); }
+        }
+    }
+    s.push_str(&format!("pardelta={};", list(&pardelta)));
     let mut lv = HashMap::new();
     let mut multi = Vec::new();
     let mut level_order = vec![0u32];
